@@ -435,6 +435,8 @@ func TestC07(t *testing.T) {
 	c.srcByteInputs(p, extraBytes(srcDict().HTMLBytes, gen.AlphaHTML), gen.CoreHTML, 3, htmlHostile, judge)
 	p = c.rec.NewPart("source_dictionary", fmt.Sprintf("%d construct openers x every sequence of 1..4 symbols over {W} + %q (5 symbols over {W} + the first five) that contains W, for each word W (as written, upper, lower) that occurs as a literal in the XSS source files and is not a list entry", len(htmlDictOpeners), htmlDictAlpha), false, true, "")
 	c.htmlDictInputs(p, judge)
+	p = c.rec.NewPart("source_dictionary_near_miss", fmt.Sprintf("the source-dictionary words with exactly one byte replaced by its neighbour under the case bit (b^0x20) or the high bit (b^0x80), behind the same %d construct openers in every sequence of 1..2 symbols over {W} + %q that contains W", len(htmlDictOpeners), htmlDictAlpha), false, true, "")
+	c.htmlNearMissInputs(p, judge)
 	p = c.rec.NewPart("pass_leak_atoms_exhaustive", "every concatenation of 1..4 (thorough 5) pass-leak atoms (see C13)", false, true, "")
 	c.EnumSeq(p, passLeakAtoms, "", 1, pick(4, 5), judge)
 
